@@ -16,9 +16,17 @@ fn strip(t: &Transaction) -> Transaction {
 }
 
 pub fn one_tx(out: &mut Out, t: &Transaction) {
+    one_tx_k(out, t, true)
+}
+
+/// `k = false`: the serialization of `t` is not something the decoder accepts (in-memory shapes only the encoder
+/// knows), so the model driver, which receives the bytes, cannot rebuild the value: direct checks only
+pub fn one_tx_k(out: &mut Out, t: &Transaction, k: bool) {
     let b = serialize(t);
     let res = Out::guard(|| format!("ok {} {} {} {} {}", t.size(), t.weight(), t.vsize(), t.discount_weight(), t.discount_vsize()));
-    out.k(format!("sizes {}", hex(&b)), res.clone());
+    if k {
+        out.k(format!("sizes {}", hex(&b)), res.clone());
+    }
     out.s("sizes_never_panic", res != "panic", || hex(&b));
     if res == "panic" { return; }
     let full = b.len();
@@ -40,11 +48,21 @@ pub fn one_tx(out: &mut Out, t: &Transaction) {
 }
 
 pub fn one_block(out: &mut Out, bk: &Block) {
+    one_block_k(out, bk, true)
+}
+
+pub fn one_block_k(out: &mut Out, bk: &Block, k: bool) {
     let b = serialize(bk);
     let res = Out::guard(|| format!("ok {} {}", bk.size(), bk.weight()));
-    out.k(format!("blocksizes {}", hex(&b)), res);
+    if k && b.len() <= 150_000 {
+        out.k(format!("blocksizes {}", hex(&b)), res);
+    }
     out.s("block_size_is_serialized_length", bk.size() == b.len(), || hex(&b));
-    let hdr = serialize(&bk.header).len() + elements::encode::VarInt(bk.txdata.len() as u64).size();
+    // compact-size length from the definition, not from the crate's `VarInt::size`
+    let n = bk.txdata.len() as u64;
+    let cs = if n < 0xfd { 1 } else if n <= 0xffff { 3 } else if n <= 0xffff_ffff { 5 } else { 9 };
+    out.s("varint_size_is_emitted_length", elements::encode::VarInt(n).size() == cs && serialize(&elements::encode::VarInt(n)).len() == cs, || format!("VarInt({})", n));
+    let hdr = serialize(&bk.header).len() + cs;
     let w: usize = 4 * hdr + bk.txdata.iter().map(|t| t.weight()).sum::<usize>();
     out.s("block_weight_formula", bk.weight() == w, || hex(&b));
     out.count(&format!("block.ntx{}", bk.txdata.len().min(3)));
@@ -84,6 +102,34 @@ pub fn run(rng: &mut R, out: &mut Out) {
     }
     for _ in 0..40 * scale {
         one_block(out, &gen::block(rng));
+    }
+    // transaction counts on both sides of every compact-size boundary (smallest possible transactions)
+    for n in [0xfcusize, 0xfd, 0xfe, 0xffff, 0x10000, 0x10001] {
+        let mut bk = gen::block(rng);
+        let t = Transaction { version: 2, lock_time: elements::LockTime::ZERO, input: vec![], output: vec![] };
+        bk.txdata = vec![t; n];
+        out.count("block.tx_count_boundary");
+        one_block(out, &bk);
+    }
+    for n in [0xfcu64, 0xfd, 0xfe, 0xffff, 0x10000, 0x10001, 0xffff_ffff, 0x1_0000_0000, u64::MAX] {
+        let cs = if n < 0xfd { 1 } else if n <= 0xffff { 3 } else if n <= 0xffff_ffff { 5 } else { 9 };
+        out.s("varint_size_is_emitted_length", elements::encode::VarInt(n).size() == cs && serialize(&elements::encode::VarInt(n)).len() == cs, || format!("VarInt({})", n));
+    }
+    // in-memory inputs the decoder never produces (a null outpoint that carries a pegin flag and/or an issuance):
+    // the sizes are those of what the ENCODER writes for them
+    for v in 0..(12 * scale) {
+        let mut t = gen::tx(rng);
+        if t.input.is_empty() { t.input.push(gen::txin(rng, gen::InKind::Plain, false)); }
+        let i = rng.gen_range(0..t.input.len());
+        let mut n = gen::txin(rng, if v % 3 == 0 { gen::InKind::Pegin } else { gen::InKind::Issuance }, v % 2 == 0);
+        n.previous_output = elements::OutPoint::null();
+        if v % 4 == 1 { n.is_pegin = true; }
+        t.input[i] = n;
+        out.count("tx.null_outpoint_with_flags");
+        let k = deserialize::<Transaction>(&serialize(&t)).is_ok();
+        one_tx_k(out, &t, k);
+        let bk = Block { header: gen::header(rng), txdata: vec![t] };
+        one_block_k(out, &bk, k);
     }
     txacc::run(rng, out);
 }
